@@ -118,7 +118,8 @@ def _slug(s):
 
 
 class Cx:
-    def __init__(self, prop, prog, tier="quick", config="dev", tree=None):
+    def __init__(self, prop, prog, tier="quick", config="dev", tree=None, repo=None):
+        self.repo = repo or facts.REPO
         self.prop = prop
         self.prog = prog
         self.tier = tier
@@ -170,7 +171,7 @@ def load_known():
 PROPS = ["C%02d" % i for i in range(1, 21)]
 
 
-def run_property(prop, tier="quick", configs=None, repo=None, quiet=False):
+def run_property(prop, tier="quick", configs=None, repo=None, quiet=False, target=None):
     """Evaluate all rules of `prop` on the current tree. Returns (violations, known_hits, evidence dict)."""
     t0 = time.time()
     mod = importlib.import_module(f"rules.{prop.lower()}")
@@ -179,10 +180,10 @@ def run_property(prop, tier="quick", configs=None, repo=None, quiet=False):
     extraction = {}
     tree = None
     for cfg in configs:
-        d, tree, wall = facts.facts_dir(cfg, repo=repo)
+        d, tree, wall = facts.facts_dir(cfg, repo=repo, target=target)
         crates = facts.load_dir(d)
         prog = Program(crates)
-        cx = Cx(prop, prog, tier, cfg, tree)
+        cx = Cx(prop, prog, tier, cfg, tree, repo=repo)
         mod.run(cx)
         extraction[cfg] = {
             "facts_dir": os.path.relpath(d, VERIF) if d.startswith(VERIF) else d, "extract_wall_s": round(wall, 1),
